@@ -5,6 +5,7 @@ import ScVerif.C13.Ctx
 import ScVerif.C13.Errs
 import ScVerif.C13.Select
 import ScVerif.C13.Unwrap
+import ScVerif.C13.Opts
 /-! Driver handler for C13: parses one request line, runs the model, prints the canonical answer.
 
 ```
@@ -227,6 +228,19 @@ def handleSelect (call setup offer taker : String) : Option String := do
 def handleOpt (toks : List String) : Option String :=
   match toks with
   | ["select", call, setup, offer, taker] => handleSelect call setup offer taker
+  | ["opts", hdr, trl, opts] => do
+    -- `opts <header md> <trailer md> <h<addr>|t<addr>|o,...>`: the caller's variables 0..3 after collectMetadata
+    let hdr ← parseMD? hdr
+    let trl ← parseMD? trl
+    let os ← parseList? (fun t => match t.toList with
+      | 'h' :: r => (parseNat? (String.ofList r)).map CallOpt.header
+      | 't' :: r => (parseNat? (String.ofList r)).map CallOpt.trailer
+      | ['o'] => some (CallOpt.other 0)
+      | _ => none) opts
+    let v := collectMetadata hdr trl os []
+    pure (";".intercalate ([0, 1, 2, 3].map fun a => match v.lookup a with
+      | some md => toString a ++ "=" ++ showMD md
+      | none => toString a ++ "=nil"))
   | ["unwrap", k] => do
     let k ← parseNat? k
     match unwrapFully (stack k (.plain 0)) with
